@@ -61,7 +61,10 @@ def gen(seed, tier="quick"):
             x = r.random()
             if x < 0.05:
                 vt = r.choice(("np", "duck", "str"))  # possibly the wrong array type
-            ops.append({"op": "arr", "ann": a, "val": g.arr_val(a, p, p_bad=r.choice((0.0, 0.05, 0.2)), vt=vt)})
+            val = g.arr_val(a, p, p_bad=r.choice((0.0, 0.05, 0.2)), vt=vt)
+            if r.random() < 0.2:
+                val = {"t": "pool", "v": val}  # the very same array object is checked again later, in other contexts
+            ops.append({"op": "arr", "ann": a, "val": val})
             if r.random() < 0.12:
                 ops.append(dict(ops[-1]))  # re-issue
             if r.random() < 0.1:
@@ -175,7 +178,7 @@ def execute(scn):
     return {"violations": obs.viol, "stats": stats.c, "features": sorted(obs.feats),
             "digest": digest([r.transcript for r in runs]),
             "sample": {"checks": stats.get("evaluations"),
-                       "first_checks": [[scn["anns"][o["ann"]]["dims"], o["val"].get("s")] for o in _flat(scn["threads"][0]) if o["op"] == "arr"][:6]}}
+                       "first_checks": [[scn["anns"][o["ann"]]["dims"], model.unshare(o["val"]).get("s")] for o in _flat(scn["threads"][0]) if o["op"] == "arr"][:6]}}
 
 
 def _flat(ops):
